@@ -42,7 +42,7 @@ func Scenarios() []*Scn {
 		{Name: "S04-std-cap1", Pool: std, Capacity: 1, Sources: [][]Ev{plain(3, "")}, Props: "C04 C05"},
 		{Name: "S05-2streams-2workers", Pool: std, Capacity: 4, Sources: [][]Ev{{x, y, x2, y2}}, Workers: 2, Props: "C01 C02"},
 		{Name: "S06-2sources", Pool: low, Capacity: 4, Sources: [][]Ev{plain(2, ""), plain(2, "")}, Props: "C02 C04 C05"},
-		{Name: "S07-discard-mid", Pool: std, Capacity: 4, Sources: [][]Ev{{ev(`{"k":1}`), ev(`{"d":"1"}`), ev(`{"k":3}`)}}, Actions: []string{"discard"}, Workers: 2, Props: "C01 C02 C05"},
+		{Name: "S07-discard-mid", Pool: std, Capacity: 4, Sources: [][]Ev{{ev(`{"k":1}`), ev(`{"d":"1"}`), ev(`{"k":3}`)}}, Actions: []string{"discard"}, Workers: 2, Props: "C01 C02 C05 C14"},
 		{Name: "S08-join-SCO-S", Pool: std, Capacity: 4, Sources: [][]Ev{{S, C, Oth, ev(`{"m":"S4"}`)}}, Actions: []string{"join"}, Props: "C01 C02 C04 C15"},
 		{Name: "S09-join-join2", Pool: std, Capacity: 4, Sources: [][]Ev{{ev(`{"m":"S1","n":"S1"}`), ev(`{"m":"x2","n":"C2"}`), ev(`{"m":"x3","n":"x3"}`)}}, Actions: []string{"join", "join2"}, Props: "C02 C01"},
 		{Name: "S10-split-join", Pool: std, Capacity: 4, Sources: [][]Ev{{ev(`{"arr":[{"m":"S1"},{"m":"x2"}]}`), ev(`{"m":"x3"}`)}}, Actions: []string{"split", "join"}, Props: "C01 C02 C05"},
@@ -55,7 +55,7 @@ func Scenarios() []*Scn {
 		{Name: "S17-split-giveup-nodq", Pool: low, Capacity: 4, Sources: [][]Ev{{ev(`{"arr":[{"m":"c1"},{"m":"c2"}]}`), ev(`{"m":"x3"}`)}}, Actions: []string{"split"}, BatchCount: 3, Sends: "ff", Retry: 0, Props: "C01 C02 C05"},
 		// late arrivals: an event put on a stream whose processor has been parked in blockGet for a while (heartbeat ticks at 200ms multiples)
 		{Name: "S23-join-hold-late-put", Pool: std, Capacity: 4, Sources: [][]Ev{{S, Ev{JSON: `{"m":"x2"}`, Delay: 400 * time.Millisecond}}}, Actions: []string{"join"}, Props: "C04 C02 C01 C15"},
-		{Name: "S24-discard-then-join-late", Pool: std, Capacity: 4, Sources: [][]Ev{{S, ev(`{"d":"1"}`), Ev{JSON: `{"m":"x3"}`, Delay: 100 * time.Millisecond}}}, Actions: []string{"discard", "join"}, Props: "C01 C02 C04 C15"},
+		{Name: "S24-discard-then-join-late", Pool: std, Capacity: 4, Sources: [][]Ev{{S, ev(`{"d":"1"}`), Ev{JSON: `{"m":"x3"}`, Delay: 100 * time.Millisecond}}}, Actions: []string{"discard", "join"}, Props: "C01 C02 C04 C15 C14"},
 		{Name: "S25-collapse-late-put", Pool: low, Capacity: 4, Sources: [][]Ev{{ev(`{"c":1}`), Ev{JSON: `{"p":2}`, Delay: 600 * time.Millisecond}}}, Actions: []string{"collapse"}, Props: "C04 C02"},
 		{Name: "S26-join-2sources-2streams", Pool: std, Capacity: 4, Sources: [][]Ev{
 			{evs("x", `{"stream":"x","m":"S1"}`), evs("y", `{"stream":"y","m":"Sa"}`), evs("x", `{"stream":"x","m":"C2"}`), evs("y", `{"stream":"y","m":"xb"}`)},
@@ -82,8 +82,9 @@ func Scenarios() []*Scn {
 		{Name: "S36-std-cap3-batch4", Pool: std, Capacity: 3, Sources: [][]Ev{plain(3, ""), plain(2, "")}, BatchCount: 4, Props: "C05 C04"},
 		{Name: "S37-lowmem-cap3-batch4", Pool: low, Capacity: 3, Sources: [][]Ev{plain(3, ""), plain(2, "")}, BatchCount: 4, Props: "C05"},
 		// an action behind the join that does not pass the flushed run on (discard): the lines after the run keep their order
-		{Name: "S38-join-then-discard-run", Pool: std, Capacity: 4, Sources: [][]Ev{{ev(`{"m":"S1","d":"1"}`), ev(`{"m":"C2"}`), ev(`{"m":"x3"}`), ev(`{"m":"x4"}`)}}, Actions: []string{"join", "discard"}, Props: "C15 C02 C01"},
-		{Name: "S39-join-then-discard-2runs", Pool: low, Capacity: 4, Sources: [][]Ev{{ev(`{"m":"S1","d":"1"}`), ev(`{"m":"S2"}`), ev(`{"m":"C3"}`), ev(`{"m":"x4","d":"1"}`), ev(`{"m":"x5"}`)}}, Actions: []string{"join", "discard"}, Props: "C15 C02"},
+		{Name: "S38-join-then-discard-run", Pool: std, Capacity: 4, Sources: [][]Ev{{ev(`{"m":"S1","d":"1"}`), ev(`{"m":"C2"}`), ev(`{"m":"x3"}`), ev(`{"m":"x4"}`)}}, Actions: []string{"join", "discard"}, Props: "C15 C02 C01 C14"},
+		{Name: "S39-join-then-discard-2runs", Pool: low, Capacity: 4, Sources: [][]Ev{{ev(`{"m":"S1","d":"1"}`), ev(`{"m":"S2"}`), ev(`{"m":"C3"}`), ev(`{"m":"x4","d":"1"}`), ev(`{"m":"x5"}`)}}, Actions: []string{"join", "discard"}, Props: "C15 C02 C14"},
+		{Name: "S40-discard-join-held-then-d1", Pool: std, Capacity: 4, Sources: [][]Ev{{ev(`{"m":"S1"}`), ev(`{"m":"C2"}`), ev(`{"d":"1","m":"x3"}`), ev(`{"m":"x4"}`), ev(`{"d":"1","m":"C5"}`)}}, Actions: []string{"discard", "join"}, Props: "C14 C15"},
 		{Name: "S18-cap1-join-hold", Pool: low, Capacity: 1, Sources: [][]Ev{{S, Oth}}, Actions: []string{"join"}, Props: "C04 C05"},
 		{Name: "S19-1proc-2streams", Pool: std, Capacity: 2, SingleProc: true, Sources: [][]Ev{{x, y, x2}}, Props: "C02 C04"},
 		{Name: "S20-exits-of-In", Pool: std, Capacity: 2, MaxEventSize: 40, Sources: [][]Ev{{
@@ -195,6 +196,13 @@ func RunProperty(prop string, r *vreport.Run) {
 			Check: func(x *vsched.Exec) []vexplore.Finding {
 				var out []vexplore.Finding
 				for _, f := range Check(sc, x) {
+					if prop == "C14" && f.Clause == "reassembly" && strings.Contains(strings.Join(sc.Actions, ","), "discard") {
+						// C14: the selector of an action in a chain (here: discard with match_fields d=1) is applied to every
+						// event that reaches it, whatever the other actions of the chain hold at that moment
+						f.Clause = "selector-in-chain"
+						out = append(out, f)
+						continue
+					}
 					if owner, ok := ClauseProps[f.Clause]; ok && owner != prop {
 						continue
 					}
